@@ -34,13 +34,18 @@ def make_resource(status_subresource=False):
 
 # ---------------------------------------------------------------- independent reference semantics
 def rfc7386(target, patch):
+    """RFC 7386 merge; never aliases its inputs."""
+    return _merge(copy.deepcopy(target), patch)
+
+
+def _merge(target, patch):
     if isinstance(patch, dict):
         target = dict(target) if isinstance(target, dict) else {}
         for k, v in patch.items():
             if v is None:
                 target.pop(k, None)
             else:
-                target[k] = rfc7386(target.get(k), v)
+                target[k] = _merge(target.get(k), v)
         return target
     return copy.deepcopy(patch)
 
